@@ -77,7 +77,7 @@ func posSeq(ns xsel.NodeSet) string {
 }
 
 func c03Case(r *evid.Run, tier string, idx int, g *rng.R) {
-	o := adoc.GenOpts{MinNodes: 6, MaxNodes: 50, NS: g.Intn(3), Misc: g.P(50), Weird: g.P(15), NoXMLNS: g.P(30)}
+	o := adoc.GenOpts{MinNodes: 6, MaxNodes: 50, NS: g.Intn(3), Misc: g.P(50), Weird: g.P(25), NoXMLNS: g.P(30)}
 	d := adoc.Generate(g, o)
 	if o.NS > 0 && g.P(50) {
 		adoc.NSQuirks(g, d, true)
@@ -170,6 +170,23 @@ func c03Case(r *evid.Run, tier string, idx int, g *rng.R) {
 	for i := 0; i < n; i++ {
 		ctx := rng.Pick(g, d.All)
 		run("path", ctx, gen.RelPath(0))
+	}
+	// every element / attribute name of the document as a bare (abbreviated) last step: the order
+	// of the result must not depend on how the name happens to be spelled
+	for k, q := range elems {
+		if k >= 10 {
+			break
+		}
+		x := xast.Step{Axis: "child", Test: xast.NameT(q.Prefix, q.Local), Abbrev: true}
+		run("bare-name", d.Root, xast.Abs(xast.DS(), x))
+		run("bare-name", d.Root, xast.Abs(xast.DS(), xast.Step{Axis: "child", Test: xast.AnyT(), Abbrev: true}, x))
+		run("bare-name", rng.Pick(g, d.All), xast.Rel(xast.S("ancestor-or-self", xast.NodeT()), x))
+	}
+	for k, q := range attrs {
+		if k >= 6 {
+			break
+		}
+		run("bare-name", d.Root, xast.Abs(xast.DS(), xast.Step{Axis: "attribute", Test: xast.NameT(q.Prefix, q.Local), Abbrev: true}))
 	}
 	// overlap makers
 	anyName := func() xast.Test {
